@@ -57,6 +57,25 @@ static std::string scenario_divide(int ncells, int ready_mask) {
     std::string d = describe(L) + " max_id=" + std::to_string(max_id); for (auto& c : L) c->clear_data(); return d;
 }
 
+
+// (b') the same division phase with one cell in the list whose division cannot succeed (kind selects the shape; `where` its place in the list)
+static sc::Mesh awkward_cell(int kind) { using namespace sc;
+    if (kind == 0) { Mesh m = icosphere(2); for (size_t i = 0; i < m.nv(); i++) { double x = m.pos[3*i]; double r = 0.45 + 0.55 * x * x; m.pos[3*i] *= 1.6; m.pos[3*i+1] *= r; m.pos[3*i+2] *= r; } return scaled(m, 2, 2, 2); }
+    if (kind == 1) { Mesh m = icosphere(2); for (size_t i = 0; i < m.nv(); i++) if (m.pos[3*i+2] > 0.6) m.pos[3*i+2] = 1.2 - m.pos[3*i+2]; return scaled(m, 2, 2, 2); }
+    if (kind == 2) return scaled(icosphere(1), 1, 1.2, 1);
+    if (kind == 3) return icosphere(2);                 // edges half as long as the band allows
+    if (kind == 4) return scaled(icosphere(1), 3, 3, 3); // edges three times as long
+    if (kind == 5) { Mesh m = icosphere(2); for (size_t i = 0; i < m.nv(); i++) { double x = m.pos[3*i]; if (std::fabs(x) < 0.3) { m.pos[3*i+1] *= 0.15; m.pos[3*i+2] *= 0.15; } } return scaled(m, 2, 2, 2); }   // pinched to a thin neck where the division plane passes
+    return icosphere(1); }
+static std::string scenario_divide_awkward(int kind, int where) {
+    simucell3d_verif::g_base_seed = 777; simucell3d_verif::reset_rng_counters(); srand(1);
+    std::vector<cell_ptr> L; for (int i = 0; i < 3; i++) { sc::Mesh m = (i == where) ? sc::translated(awkward_cell(kind), 8.0 * i, 0, 0) : sc::translated(sc::icosphere(1), 8.0 * i, 0, 0); cell_ptr c = sc::make_cell(m, 10 + i, g_div_type, true); c->set_local_id(i); c->division_volume_ = 0.5 * c->get_volume(); L.push_back(c); }
+    unsigned max_id = 13; double lo = 1e300, hi = 0; const cell& c0 = *L[where == 0 ? 1 : 0]; for (const edge& e : c0.get_edge_set()) { double d = (c0.node_lst_[e.n1()].pos_ - c0.node_lst_[e.n2()].pos_).norm(); lo = std::min(lo, d); hi = std::max(hi, d); }
+    const double l_min = std::sqrt(hi / 3 * 1.02 * lo * 0.98); local_mesh_refiner lmr(l_min, 3 * l_min, true);
+    g_cur_list = &L; cell_divider::run(L, l_min, lmr, max_id, false); g_cur_list = nullptr;
+    std::string d = describe(L) + " max_id=" + std::to_string(max_id); for (auto& c : L) c->clear_data(); return d;
+}
+
 // ------------------------------------------------------------------------------------------------ (a) run_iteration on non-interacting cells
 static solver* g_cur_solver = nullptr;
 static unsigned long hash_world() { if (!g_cur_solver) return 0; return sc::fnv(sw::canon_world(*g_cur_solver)); }
@@ -191,6 +210,8 @@ static void explore(Result& R) {
     for (int T : {2, 3}) subs.push_back({"mesh_writer::write, three cells with free slots, T=" + std::to_string(T), T, th ? 2 : 1, [] { return scenario_write(3); }, nullptr, nullptr, "@serial"});
     // (b)
     for (int nc : {3, 4}) for (int mask : {3, 5, 6, 7}) for (int T : {2, 3}) { if (!th && (nc == 4 || (T == 3 && mask != 7))) continue; subs.push_back({"divide cells=" + std::to_string(nc) + " ready=" + std::to_string(mask) + " T=" + std::to_string(T), T, th ? 3 : 2, [nc, mask] { return scenario_divide(nc, mask); }, nullptr, hash_list, "@serial"}); }
+    // (b') a cell whose division fails, at every place in the list; every execution in its own process, so that an error that ends the process ends one execution
+    for (int kind : {2, 0, 5, 1}) for (int where = 0; where < 3; where++) { if (!th && kind != 2 && !(kind == 0 && where == 1)) continue; Sub d{"divide-with-a-cell-that-cannot-divide kind=" + std::to_string(kind) + " place=" + std::to_string(where) + ", isolated processes, T=2", 2, th ? 2 : 1, [kind, where] { return scenario_divide_awkward(kind, where); }, nullptr, hash_list, "@serial"}; d.isolated = functional; subs.push_back(d); }
     // (a)
     for (int T : {2, 3}) { if (!th && T == 3) continue; subs.push_back({"run_iteration x2, three non-interacting cells, T=" + std::to_string(T), T, th ? 2 : 1, [] { return scenario_iterations(2); }, nullptr, hash_world, "@serial"}); }
     if (th) subs.push_back({"run_iteration x2, three non-interacting cells, T=4", 4, 1, [] { return scenario_iterations(2); }, nullptr, hash_world, "@serial"});
